@@ -40,7 +40,7 @@ func verifStrOp(p Set) Set {
 // that spare capacity arises the way it does in production) is extended twice; neither the
 // parent nor the first derivative may change.
 func VerifC03StringBranching() {
-	p := verifBaseString(3)
+	p := verifBaseString(verifWiden(3, 4))
 	if verifChoice(2) == 1 {
 		p = verifStrOp(p)
 	}
@@ -81,7 +81,7 @@ func verifBytesOp(p Set) Set {
 
 // VerifC03BytesBranching: as VerifC03StringBranching, for byte arrays.
 func VerifC03BytesBranching() {
-	p := verifBaseBytes(3)
+	p := verifBaseBytes(verifWiden(3, 4))
 	if verifChoice(2) == 1 {
 		p = verifBytesOp(p)
 	}
